@@ -1294,6 +1294,57 @@ class ProgGen:
 		return sources, names[-1]
 
 
+def chain_program(rng: random.Random, depth: int) -> tuple[dict[str, str], str]:
+	"""A reference CHAIN through table entries, `depth` generic classes long: a referrer mentions generic class 0 WITH type arguments
+	(so the use site does not show what the class entry refers to); the own entry of a generic class mentions an alias through a base
+	(`class K(Generic[T], Holder[A])`), the alias target mentions the next alias or — with type arguments — the next generic class
+	(`A: TypeAlias = list[K2[str]]`); the last class refers to its type parameter only. The export has to pull every link's own
+	references in front of it however deep inside other entries the walk already is. (tranp keeps only the leaf type arguments of a
+	base in the class entry, except for aliases — so the links between two generic classes are aliases.) Declaration order: the
+	referrer first (mostly) / in the middle / last; the links in chain order (all forward references), in dependency order, or
+	shuffled. `Holder` is local or imported."""
+	tag = 'abcdefghij'[rng.randrange(10)].upper()
+	kinds: list[str] = []
+	for g in range(depth):
+		kinds.append('gen')
+		if g + 1 < depth:
+			kinds += ['alias'] * rng.choice([1, 1, 2])
+	imported = rng.random() < 0.5
+
+	def mention(i: int) -> str:
+		return f'K{tag}{i}[{rng.choice(PRIMS)}]' if kinds[i] == 'gen' else f'A{tag}{i}'
+	decls: list[list[str]] = []
+	for i, kind in enumerate(kinds):
+		nxt = mention(i + 1) if i + 1 < len(kinds) else None
+		if kind == 'gen':
+			base = f", Holder{tag}[{nxt if rng.random() < 0.8 else f'list[{nxt}]'}]" if nxt else ''
+			decls.append([f"T{tag}{i} = TypeVar('T{tag}{i}')", f'class K{tag}{i}(Generic[T{tag}{i}]{base}):', f'\tdef get{i}(self) -> T{tag}{i}: ...'])
+		else:
+			decls.append([f"A{tag}{i}: TypeAlias = {rng.choice([f'list[{nxt}]', f'dict[str, {nxt}]', f'tuple[int, {nxt}]', f'{nxt} | None'])}"])
+	order = rng.choice(['chain', 'chain', 'shuffled', 'shuffled', 'dependency'])
+	if order == 'dependency':
+		decls.reverse()
+	elif order == 'shuffled':
+		rng.shuffle(decls)
+	first = mention(0)
+	ref = rng.choice([
+		[f"def use{tag}(k: '{first}') -> None: ..."],
+		[f"def use{tag}(k: 'list[{first}]', n: int) -> '{first} | None': ..."],
+		[f'class User{tag}:', f"\tdef find(self, key: str) -> 'dict[str, {first}]': ..."],
+	])
+	decls.insert(rng.choice([0, 0, 0, len(decls) // 2, len(decls)]), ref)
+	holder = [f"TH{tag} = TypeVar('TH{tag}')", f'class Holder{tag}(Generic[TH{tag}]):', f'\tdef held(self) -> TH{tag}: ...']
+	head = ['from typing import Generic, TypeAlias, TypeVar']
+	srcs: dict[str, str] = {}
+	if imported:
+		srcs['genmod_h'] = '\n'.join([head[0], *holder]) + '\n'
+		head.append(f'from genmod_h import Holder{tag}')
+	else:
+		head += holder
+	srcs['genmod_c'] = '\n'.join(head + [ln for d in decls for ln in d]) + '\n'
+	return srcs, 'genmod_c'
+
+
 FIXED_PROGRAMS: list[tuple[str, dict[str, str], str]] = [
 	('deep-nesting', {'__main__': (
 		'from typing import TypeAlias\n'
@@ -1475,6 +1526,11 @@ def load_programs(ctx: Ctx, stream: str, n_generated: int, real_modules: list[st
 		gen = ProgGen(rng, depth=1 + i % 4, forward=i % 3 == 2)
 		srcs, entry = gen.program()
 		todo.append(('forward' if gen.forward else 'generated', f'gen#{i}', srcs, entry))
+	# reference chains of depth 2..4 through generic bases and alias targets (own random stream: the programs above stay what they were)
+	crng = ctx.sub_rng(stream + ':chain')
+	for i in range(max(8, n_generated // 5)):
+		srcs, entry = chain_program(crng, 2 + i % 3)
+		todo.append(('chain', f'chain#{i}', srcs, entry))
 	for kind, name, srcs, entry in todo:
 		try:
 			with time_limit(LOAD_BUDGET):
@@ -1968,6 +2024,7 @@ STATEMENTS = {
 	'C14.export_history_independent': 'to_json is a function of the entries of the table alone (not of the completed marks; the model has no other state): same entries, same rows',
 	'C14.state_is_modelled': 'GENERATED from the AST of db.py / serializer.py on every run: SymbolDB has exactly __paths, __items, __completed; __paths and __items are written by the same methods; only __setitem__, on_complete, unload, import_json write fields; _order_keys_recursive changes only its two out-parameters; the serializer writes no field and changes no argument in place (a memo / cache / consumed argument breaks the translator or this theorem)',
 	'C14.row_schema_generated': "GENERATED from the AST of serializer.py / sequence.py on every run: serialize writes the class tag and exactly the fields of the model's two row shapes, deserialize reads exactly those back, each value is the expression the model cites (DSNs, origin = types.fullyname, via = via.types.fullyname, attrs over seqs.expand), the class test, the via choice, the depth sort key and the flattening guard are the ones modelled (a row key added / dropped / renamed, another sort key or guard breaks the translator or this theorem)",
+	'C14.order_guards_generated': 'GENERATED from the AST of db.py on every run: the tests of _order_keys / _order_keys_recursive (module filter, the cycle guard `key in self.__items and key not in resolving` = membership in the set of keys under expansion, the final `key not in orders`), the writes to resolving / orders, the recursive calls and the two loops are the ones the model orderNode / entryFirst implements (C14.order and C14.order_fuel are theorems about exactly this walk)',
 	'C14.export_paths_canonical': 'every key of an exported attrs dict is a non-empty path whose dotted spelling consists of canonical decimals and decodes to the path',
 	'C14.canonical_roundtrip': 'on canonical decimals (ASCII digits, no sign, no leading zero) int and str are inverse',
 	'C14.import_frame': 'import_json changes no entry under a key it is not given a row for (entries of the other modules) and removes none',
